@@ -25,7 +25,12 @@ def jobs(tier):
         js.append(job(M, "c08", f"layout/n2/order{go}", dict(n=2, mode="layout", grouporder=go), max_seconds=ms))
     js.append(job(M, "c08_big", "n999/concrete", dict(n=999) if t else dict(n=300), max_seconds=ms))
     if t:
-        js += [job(M, "c08", "lines/n3", dict(n=3, mode="lines"), max_seconds=ms),
+        js += [*split(job(M, "c08", "stale-codes/n3", dict(n=3, mode="stale", strings=False), max_seconds=ms), "stale_code", 7),
+               *split(job(M, "c08", "stale-codes+iso/n3", dict(n=3, mode="stale", with_iso=True, strings=False), max_seconds=ms), "stale_code", 7),
+               *split(job(M, "c08", "codes/n3/DT", dict(n=3, mode="codes", symbols=["C", "D", "T"], strings=False), max_seconds=ms), "el0", 3),
+               *split(job(M, "c08", "lines/n3/unrelated", dict(n=3, mode="lines", unrelated=True, strings=False), max_seconds=ms), "unrelated", 9),
+               *[job(M, "c08", f"layout/n3/order{go}", dict(n=3, mode="layout", grouporder=go), max_seconds=ms) for go in range(6)],
+               job(M, "c08", "lines/n3", dict(n=3, mode="lines"), max_seconds=ms),
                job(M, "c08", "iso/n3/DT", dict(n=3, mode="iso", symbols=["C", "H", "D", "T"]), max_seconds=ms),
                job(M, "c08", "bonds/n4", dict(n=4, mode="bonds"), max_seconds=ms)]
         for tag in ("CHG", "RAD", "ISO"):
@@ -39,7 +44,7 @@ def main(tier):
     return run_check(
         "C08", tier, jobs(tier),
         bounds={"atoms": "2-3 atoms (thorough: 9 atoms so that M  CHG/RAD/ISO need two or three lines; 4 atoms for bonds)",
-                "values": "M  CHG values in [-15, 15], M  RAD in [0, 3] (explicit 0 included), M  ISO >= 1, bond types any integer: symbolic, read through fixed-width fields",
+                "values": "M  CHG values in [-15, 15], M  RAD in [0, 3] (explicit 0 included), M  ISO >= 1, bond types 1..10 (V3000) / 1..8 (V2000), the types the specification defines: symbolic, read through fixed-width fields",
                 "encodings": "atom-block charge code 0..7 on every atom; property lines only; property lines plus a stale atom-block code (must be ignored), also with an M  ISO line in every position relative to the CHG/RAD lines; charge codes on D/T atoms; D/T symbols with M  ISO on other atoms, with and without an M  CHG line",
                 "layout": "every grouping of the entries into <= 3 lines of <= 8, all 6 orders of the CHG/RAD/ISO groups, one unrelated line (M  STY, M  ALS, A, V, G, S  SKP, M  SAL, M  RGP) at every position, one atom-list line counted in lll"},
         assumptions=["renderings by REF-V2000 / REF-V3000 (/verif/ref/molfile_ref.py), independent of tucan",
